@@ -1027,7 +1027,7 @@ Qed.
 (* ---------- a whole read in a good state ---------- *)
 Lemma read_result : forall s r u s', good s ->
   exec sha s (read_events sha r u s) = Some s' ->
-  getN r (s_r s) = None /\
+  getN r (s_r s) = None /\ getN r (s_r s') <> None /\
   ((getS (key sha u) (s_dir s) = None /\ oread_of s' r = OMiss) \/
    (exists L wr b, getS (key sha u) (s_dir s) = Some L /\ done_at s L wr /\
       getN L (i_writers i) = Some (w_url wr, b) /\ key sha (w_url wr) = key sha u /\
@@ -1044,10 +1044,13 @@ Proof.
     rewrite (get_put_eq N.eqb Neqb_spec) in H. cbn in H. rewrite Gd in H. cbn in H.
     rewrite (get_put_eq N.eqb Neqb_spec) in H. cbn in H. rewrite Gd in H.
     rewrite firstn_all in H. rewrite Nat.leb_refl in H. inversion H; subst s'; clear H.
+    split; [cbn; rewrite (get_put_eq N.eqb Neqb_spec); discriminate|].
     right. exists L, wr, b. split; [reflexivity|]. split; [exact Dn|]. split; [exact Gw|]. split; [exact K|].
     unfold oread_of. cbn. rewrite (get_put_eq N.eqb Neqb_spec). cbn. rewrite C, str_dat. reflexivity.
   - cbn in H. destruct (getN r (s_r s)) eqn:Gr; [discriminate|]. split; [reflexivity|].
-    rewrite Gk in H. inversion H; subst s'; clear H. left. split; [reflexivity|].
+    rewrite Gk in H. inversion H; subst s'; clear H.
+    split; [cbn; rewrite (get_put_eq N.eqb Neqb_spec); discriminate|].
+    left. split; [reflexivity|].
     unfold oread_of. cbn. rewrite (get_put_eq N.eqb Neqb_spec). reflexivity.
 Qed.
 
@@ -1077,7 +1080,7 @@ Proof.
       destruct (read_events_ok r u s) as [Sf Dc].
       destruct (IH _ _ _ _ (exec_good _ _ _ G Sf Dc E) M) as [F Gf]. split; [|exact Gf].
       cbn [forallb]. rewrite F, andb_true_r.
-      destruct (read_result _ _ _ _ G E) as [_ [[_ ->]|[L [wr [b [Gk [Dn [Gw [K ->]]]]]]]]]; [reflexivity|].
+      destruct (read_result _ _ _ _ G E) as [_ [_ [[_ ->]|[L [wr [b [Gk [Dn [Gw [K ->]]]]]]]]]]; [reflexivity|].
       cbn. apply existsb_exists. exists (L, (w_url wr, b)). split.
       * exact (get_in N.eqb Neqb_spec _ _ _ Gw).
       * cbn [fst]. destruct (decl_wkey _ _ _ Gw) as [Wk Wb]. rewrite Wk, Wb. unfold ukey. rewrite K.
@@ -1293,7 +1296,7 @@ Lemma sr_phi : forall M s r u s' pre rest, phi M s -> good s ->
     /\ phi M2 s'.
 Proof.
   intros M s r u s' pre rest P G H Pre.
-  destruct (read_result _ _ _ _ G H) as [Gr Res].
+  destruct (read_result _ _ _ _ G H) as [Gr [_ Res]].
   destruct (read_events_ok r u s) as [Sf Dc].
   assert (phi M s') as P'.
   { apply (phi_exec_other (read_events sha r u s) M s s'); try assumption.
@@ -1360,17 +1363,7 @@ Proof.
       apply (IH s1 ps rs1 sf M2 _ Hs Mg (exec_good _ _ _ G Sf Dc E) P2).
       intros x Hx. apply in_app_or in Hx. destruct Hx as [Hx|[<-|[]]].
       * exact (readers_persist _ _ _ _ E Pre x Hx).
-      * cbn [fst]. destruct (read_result _ _ _ _ G E) as [Gr _].
-        (* the reader exists after its Get *)
-        assert (oread_of s1 r <> OErr \/ True) as _ by (right; exact Logic.I).
-        unfold read_events in E. destruct (getS (key sha u) (s_dir s)) as [L|]; cbn in E;
-          rewrite Gr in E.
-        -- cbn in E. intros Hn.
-           destruct (step sha _ (ERead r _)) as [sa|] eqn:Ea in E; [|discriminate].
-           destruct (step sha sa (EEof r)) as [sb|] eqn:Eb in E; [|discriminate].
-           inversion E; subst sb. cbn in Eb. repeat dmatch Eb. inversion Eb; subst s1. cbn in Hn.
-           rewrite (get_put_eq N.eqb Neqb_spec) in Hn. discriminate.
-        -- inversion E; subst s1. cbn. rewrite (get_put_eq N.eqb Neqb_spec). discriminate.
+      * cbn [fst]. destruct (read_result _ _ _ _ G E) as [_ [Ex _]]. exact Ex.
 Qed.
 
 Theorem model_spec_ok : wf i = true -> spec_ok i (model i) = true.
